@@ -213,7 +213,7 @@ var fuzzFuncs = map[string]func(in M) any{
 				case errors.Is(err, pfmtypes.ErrInvalidForwardMetadata):
 					return Err("invalid-forward-metadata")
 				}
-				return Err(err.Error()) // plain errors: compared by text with the model's strings
+				return Err("other") // plain errors (retries range, duration)
 			}
 			return Ok(forwardOut(m.Forward))
 		})
@@ -252,6 +252,8 @@ func genIdLike(r *Rng) string {
 		return r.Str(idAlphabet, r.Intn(12)) + "-" + r.Str("0123456789", r.Intn(24))
 	case 4:
 		return r.Str(idAlphabet+" /.\n", r.Intn(14))
+	case 5, 6, 7, 8:
+		return Pick(r, []string{"channel-", "connection-", "07-tendermint-", "06-solomachine-"}) + U(uint64(r.Intn(1000)))
 	default:
 		return r.Str(idAlphabet, 1+r.Intn(10)) + "-" + U(uint64(r.Intn(1000)))
 	}
@@ -393,7 +395,12 @@ func fuzzGen(r *Rng, n int, emit func(M)) {
 		emit(M{"f": "parse.clientId", "s": id})
 		emit(M{"f": "parse.channelSeq", "s": Pick(r, []string{id, genIdLike(r)})})
 		emit(M{"f": "parse.connectionSeq", "s": Pick(r, []string{id, genIdLike(r)})})
-		emit(M{"f": "parse.identifier", "s": genIdLike(r), "prefix": Pick(r, []string{"channel-", "connection-", "07-tendermint-", "a", "-", "ch", "channel-channel-"})})
+		pfx := Pick(r, []string{"channel-", "channel-", "connection-", "connection-", "07-tendermint-", "a", "-", "ch", "channel-channel-"})
+		ids := genIdLike(r)
+		if r.Chance(0.4) {
+			ids = pfx + Pick(r, []string{U(r.Num64()), U(uint64(r.Intn(100))), "18446744073709551616", "", "x", "1" + pfx + "2"})
+		}
+		emit(M{"f": "parse.identifier", "s": ids, "prefix": pfx})
 		emit(M{"f": "parse.height", "s": heightLike(r)})
 		cid := genChainID(r)
 		emit(M{"f": "parse.chainId", "s": cid})
@@ -479,15 +486,12 @@ var vbTypes = []func() any{
 // client states carry Validate() instead of ValidateBasic()
 type validater interface{ Validate() error }
 
+// Validate() methods that message validation calls on nested values
 var validateTypes = []func() any{
 	func() any { return &ibctm.ClientState{} }, func() any { return &solomachine.ClientState{} }, func() any { return &attestations.ClientState{} },
 	func() any { return &transfertypes.Token{} }, func() any { return &transfertypes.Denom{} }, func() any { return &transfertypes.Hop{} },
-	func() any { return &transfertypes.Params{} }, func() any { return &transfertypes.GenesisState{} },
-	func() any { return &clienttypes.GenesisState{} }, func() any { return &clientv2types.GenesisState{} }, func() any { return &connectiontypes.GenesisState{} },
-	func() any { return &channeltypes.GenesisState{} }, func() any { return &channelv2types.GenesisState{} }, func() any { return &coretypes.GenesisState{} },
-	func() any { return &clienttypes.Params{} }, func() any { return &connectiontypes.Params{} }, func() any { return &connectiontypes.Version{} },
 	func() any { return &clientv2types.CounterpartyInfo{} }, func() any { return &clientv2types.Config{} },
-	func() any { return &ratelimittypes.GenesisState{} }, func() any { return &gmptypes.GenesisState{} },
+	func() any { return &channelv2types.Acknowledgement{} },
 }
 
 // messages packed into Any fields
@@ -516,7 +520,7 @@ var namePools = map[string][]string{
 	"client": {"07-tendermint-0", "06-solomachine-2", "09-localhost", "08-wasm-1", "10-attestations-0"}, "connection": {"connection-0", "connection-9"},
 	"version": {"ics20-1", "ics27-2", "1", "{}", ""}, "denom": {"uatom", "transfer/channel-0/uatom", "ibc/27394FB092D2ECCD56123C74F36E4C1F926001CEADA9CA97EA622B25F41E5EB2", "gamm/pool/1"},
 	"amount": {"1", "100", "115792089237316195423570985008687907853269984665640564039457584007913129639935"},
-	"chain": {"testchain1-1", "cosmoshub-4", "chain", "a-18446744073709551615"}, "encoding": {"application/json", "application/x-protobuf", "application/x-solidity-abi", "proto3", "proto3json", ""},
+	"chain":  {"testchain1-1", "cosmoshub-4", "chain", "a-18446744073709551615"}, "encoding": {"application/json", "application/x-protobuf", "application/x-solidity-abi", "proto3", "proto3json", ""},
 	"memo": {"", "{}", "{\"forward\":{\"receiver\":\"r\",\"port\":\"transfer\",\"channel\":\"channel-1\"}}"}, "base": {"uatom", "stake"},
 	"identifier": {"1"}, "features": {"ORDER_ORDERED", "ORDER_UNORDERED"}, "title": {"title"}, "description": {"description"}, "name": {"upgrade-name"},
 	"diversifier": {"diversifier"}, "txtype": {"sdk_multi_msg"}, "type": {"/ibc.applications.transfer.v1.MsgTransfer", "07-tendermint"},
@@ -526,10 +530,10 @@ var advStrings = []string{"", " ", "\t", "/", "a/b", "\x00", "ü", "channel--1",
 	"a-99999999999999999999", "connection-", "-1", "+5", "0x10", "010", "1e9", "NaN", "null", "{", "[]", "../..", "ibc/", "ibc/zz", "ibc", strings.Repeat("a", 129), strings.Repeat("x/", 70)}
 
 type filler struct {
-	r     *Rng
-	adv   float64 // per-field probability of an adversarial value
-	cdc   *codec.ProtoCodec
-	depth int
+	r       *Rng
+	adv     float64 // per-field probability of an adversarial value
+	cdc     *codec.ProtoCodec
+	depth   int
 	inSlice int
 }
 
@@ -741,17 +745,43 @@ func describe(v any) string {
 	return s
 }
 
-// call runs f under recover and reports a panic. The finding key names the root cause when it is a
-// known one (a panic raised inside ParseChainID), otherwise the site and the panic class.
+// innermostIBCFrame names the innermost function of /repo/modules on the panicking stack: the root
+// cause site, whatever outer message carried the value.
+func innermostIBCFrame() string {
+	pcs := make([]uintptr, 64)
+	n := runtime.Callers(3, pcs)
+	frames := runtime.CallersFrames(pcs[:n])
+	for {
+		fr, more := frames.Next()
+		if i := strings.Index(fr.Function, "github.com/cosmos/ibc-go/v11/modules/"); i >= 0 {
+			fn := fr.Function[i+len("github.com/cosmos/ibc-go/v11/modules/"):]
+			if j := strings.LastIndex(fn, "/"); j >= 0 {
+				fn = fn[j+1:]
+			}
+			return fn
+		}
+		if !more {
+			return ""
+		}
+	}
+}
+
+// call runs f under recover and reports a panic. The finding key names the root cause: the
+// innermost ibc-go function on the panicking stack plus the panic class (a panic raised by
+// ParseChainID has its own key whatever reached it).
 func call(report func(reg.Violation), site string, input func() any, f func()) {
 	defer func() {
 		if e := recover(); e != nil {
 			cls := panicClass(e)
-			key := "panic/" + site + "/" + cls
+			root := innermostIBCFrame()
+			if root == "" {
+				root = site
+			}
+			key := "panic/" + root + "/" + cls
 			if cls == "parse-chain-id-overflow" {
 				key = "parse-chain-id-overflow"
 			}
-			report(reg.Violation{Property: "C47", Key: key, What: site + " panicked: " + cls, Input: input(), Observed: M{"panic": fmt.Sprint(e)}})
+			report(reg.Violation{Property: "C47", Key: key, What: site + " panicked in " + root + ": " + cls, Input: input(), Observed: M{"panic": fmt.Sprint(e)}})
 		}
 	}()
 	f()
@@ -820,8 +850,10 @@ func fuzzMonitor(r *Rng, n int, report func(reg.Violation)) {
 				}
 			}
 			vt := Pick(r, validateTypes)()
-			f.fill(reflect.ValueOf(vt).Elem(), "")
-			call(report, typeName(vt)+".Validate", func() any { return describe(vt) }, func() { _ = vt.(validater).Validate() })
+			if vv, ok := vt.(validater); ok {
+				f.fill(reflect.ValueOf(vt).Elem(), "")
+				call(report, typeName(vt)+".Validate", func() any { return describe(vt) }, func() { _ = vv.Validate() })
+			}
 		}
 
 		// decoders on mutated / random bytes
